@@ -345,6 +345,23 @@ pub fn run() -> i32 {
     r.boxes.push(json!({"box": "8 condensed rules, all list-length combinations", "rules": r8.len(), "calls": f8.evals, "ok": f8.ok, "err": f8.err, "crash_classes": f8.crashes.len()}));
     r.guard(f8.ok > 500 && f8.err > 200, "family 8: balanced rules return Ok, unbalanced ones Err");
     tot.merge(f8);
+    // ---- family 9: metathesis over segments, boundaries and syllables: every input of 2..4 items over {a, b, C, $, %, ...} with `> &`, with and
+    // without a context. Each swapped pair is applied in place, so an earlier pair can move what a later pair points to
+    let mut f9 = Acc::default();
+    let mut r9: Vec<String> = vec![];
+    let it9 = ["a", "b", "C", "$", "%", "..."];
+    for n in 2..=4usize { for idx in 0..it9.len().pow(n as u32) {
+        let mut q = idx; let mut v = vec![]; for _ in 0..n { v.push(it9[q % it9.len()]); q /= it9.len(); }
+        if v[0] == "..." || v[n - 1] == "..." || v.windows(2).any(|p| p[0] == "..." && p[1] == "...") { continue; }
+        let t = v.join(" ");
+        r9.push(format!("{} > &", t));
+        if n <= 3 { r9.push(format!("{} > & / _ #", t)); r9.push(format!("{} > & / $ _", t)); }
+    } }
+    let w9 = ["ab.c", "a.b.c", "ab", "abc", "a.b", "ab.ab", "ba.ab.a", "a", "ab.c.d", "ˈa.b5", "aːb.c", "a.bː"];
+    par_fold(r9.len(), 32, Acc::default, |i, a| rule_case(&r9[i], &w9, "metathesis", a), |a| f9.merge(a));
+    r.boxes.push(json!({"box": "9 metathesis over segments, boundaries, syllables and ellipses", "rules": r9.len(), "calls": f9.evals, "ok": f9.ok, "err": f9.err, "crash_classes": f9.crashes.len()}));
+    r.guard(f9.ok > 5_000, "family 9: more than 5000 calls returned Ok");
+    tot.merge(f9);
     // ---- family 4: numeric literals
     let nums = ["0", "1", "00", "007", "4294967296", "18446744073709551616", "99999999999999999999", "65536", "99999"];
     let mut f4 = Acc::default();
